@@ -295,20 +295,24 @@ def run_isar(chk, n_random):
         isopt = optional is not None and optional.lower() == "true"
         lines.append("(%d, isar_case %d %d %s %s %s [%s])" % (gi, name, t, "true" if isopt else "false", dim_coq(d),
                                                             "true" if dyn else "false", "; ".join(mem_coq(m) for m in o[1])))
-    f = os.path.join(work, "i0.v")
-    with open(f, "w") as fh:
-        fh.write("From Coq Require Import List Arith ZArith.\nFrom Prophy Require Import PcPatch PcIsar CheckLib.\nImport ListNotations.\n")
-        fh.write("Eval vm_compute in [\n%s].\n" % ";\n".join(lines))
-    res = common.coq_eval_many([f])
+    files = []
+    for off in range(0, len(lines), 500):
+        f = os.path.join(work, "i%d.v" % off)
+        with open(f, "w") as fh:
+            fh.write("From Coq Require Import List Arith ZArith.\nFrom Prophy Require Import PcPatch PcIsar CheckLib.\nImport ListNotations.\n")
+            fh.write("Eval vm_compute in [\n%s].\n" % ";\n".join(lines[off:off + 500]))
+        files.append(f)
+    res = common.coq_eval_many(files)
     n = 0
-    for gi, flat in res[f][0]:
-        n += 1
-        chk.count()
-        chk.seen_class(("isar", tuple(sorted((runs[gi][3] or {}).keys())), runs[gi][2], runs[gi][4]), True)
-        if list(flat) != []:
-            chk.violation("isarcorr-%d" % gi, {"kind": "model/implementation correspondence broken (isar.make_struct_members vs model/PcIsar.v): "
-                                                       "flags = [94; records in the model; records observed]",
-                                               "member": runs[gi][:5], "observed": impl[gi], "model_flags": list(flat)},
-                          "no-failing-input-found", match=False)
+    for f in files:
+        for gi, flat in res[f][0]:
+            n += 1
+            chk.count()
+            chk.seen_class(("isar", tuple(sorted((runs[gi][3] or {}).keys())), runs[gi][2], runs[gi][4]), True)
+            if list(flat) != []:
+                chk.violation("isarcorr-%d" % gi, {"kind": "model/implementation correspondence broken (isar.make_struct_members vs model/PcIsar.v): "
+                                                           "flags = [94; records in the model; records observed]",
+                                                   "member": runs[gi][:5], "observed": impl[gi], "model_flags": list(flat)},
+                              "no-failing-input-found", match=False)
     chk.coverage["isar_member_correspondence"] = {"members": n}
     return n
